@@ -33,6 +33,10 @@ from ..model import AnalysisError, Program
 from ..report import Check, VERIF
 from .c04 import method_overrides, NOT_REQUESTS
 
+# loops the engines summarise on purpose (retry / pause / enumeration loops are judged by the
+# loop rules of this check, not by unrolling)
+EXPECTED_GAPS = {('loop', '*')}
+
 RETRY_BOUND = 25
 EXEMPT_NAMES = {'rb', 'r', 'bl'}       # frozen: the board reboots and the port legitimately vanishes
 PRIMS = ('command', 'query')
